@@ -16,7 +16,7 @@ ASSUMPTIONS = [
     "tiling judged in exact arithmetic on the float values with 1e-9 relative tolerances",
     "tolerance state pinned per case: undefined, then the netlist (if any) and the die are loaded in that order, as a fresh process would",
 ]
-CASES = {"quick": 6000, "thorough": 150000}
+CASES = {"quick": 6000, "thorough": 1500000}
 MIN_CASES = {"quick": 1500, "thorough": 30000}
 REQUIRED_CLASSES = ["valid", "invalid"]
 REQUIRED_COUNTERS = ["tiling_checked", "inputs_unchanged_checked", "invalid_rejected_checked", "entry:text", "entry:file", "entry:tree", "entry:handle",
